@@ -1,5 +1,6 @@
 import VaxisModel.Driver.Common
 import VaxisModel.Model.Key
+import VaxisModel.Model.KeyBody
 import VaxisModel.Spec.KeyEnc
 import VaxisModel.Spec.KeyEncUni
 
@@ -335,6 +336,59 @@ def step (line : String) : String :=
     | _, _, _, _, _, _, _, _, _, _, _ => bad
   | op => (stepUni op impl).getD bad
 
-def main : IO Unit := lineLoop step
+/-! ### Structural tie: the bodies extracted from key.go on this run
+
+`Model/KeyBody.lean` interprets the bodies of `decodeKey`, `Key.Matches`, `Key.MatchString` and
+`Key.String` as the extractor regenerated them (`Gen/KeyBody.lean`).  On every case the driver
+also runs those and requires the results of the hand-written model (about which the theorems are
+stated; `Props/C09Body.lean` proves the two coincide): a difference — or a shape the interpreter
+has no meaning for — poisons the model column, so it is reported as broken correspondence. -/
+
+open VaxisModel.Model.KeyBody in
+def genAgrees (line : String) : Bool :=
+  let (op, _) := splitTab line
+  let decOK (u : Uni) (s : Seq) : Bool := decodeKeyGen u s == some (decodeKey u s)
+  let strOK (u : Uni) (k : Key) : Bool := keyStringGen u k == some (keyString u k)
+  let matOK (u : Uni) (k : Key) (r : Int) (m : Nat) : Bool := matchesGen u k r m == some («matches» u k r m)
+  let mstrOK (u : Uni) (k : Key) (s : Str) : Bool := matchStringGen u k s == some (matchString u k s)
+  let xpOK (ut ft sl sk bt : String) : Bool :=
+    match parseU? ut, parseF? ft, parseSeq? sl, parseSeq? sk, parseBinds? bt with
+    | some t, some f, some seqL, some seqK, some binds =>
+      let u := mkUni t f
+      let kl := decodeKey u seqL
+      let kk := decodeKey u seqK
+      decOK u seqL && decOK u seqK && strOK u kl && strOK u kk &&
+        binds.all fun (r, m) => matOK u kl r m && matOK u kk r m
+    | _, _, _, _, _ => true
+  match fields op with
+  | ["dec", ut, seqt, _] | ["e2e", ut, seqt, _] =>
+    (match parseU? ut, parseSeq? seqt with
+     | some t, some seq => decOK (mkUni t []) seq
+     | _, _ => true)
+  | ["mat", ut, kt, rt, mt] =>
+    (match parseU? ut, parseKey? kt, rt.toInt?, mt.toNat? with
+     | some t, some k, some r, some m => matOK (mkUni t []) k r m
+     | _, _, _, _ => true)
+  | ["mstr", ut, ft, kt, st] =>
+    (match parseU? ut, parseF? ft, parseKey? kt, sepInts? "." st with
+     | some t, some f, some k, some s => mstrOK (mkUni t f) k s
+     | _, _, _, _ => true)
+  | ["self", ut, ft, kt] =>
+    (match parseU? ut, parseF? ft, parseKey? kt with
+     | some t, some f, some k => let u := mkUni t f; strOK u k && mstrOK u k (keyString u k)
+     | _, _, _ => true)
+  | ["str", ut, kt] =>
+    (match parseU? ut, parseKey? kt with
+     | some t, some k => strOK (mkUni t []) k
+     | _, _ => true)
+  | ["xp", ut, ft, _, _, _, _, _, _, bt, sl, sk] => xpOK ut ft sl sk bt
+  | ["xpu", _, _, ut, ft, _, _, _, _, _, _, bt, sl, sk] => xpOK ut ft sl sk bt
+  | _ => true
+
+def stepTied (line : String) : String :=
+  let out := step line
+  if genAgrees line then out else "extracted-body≠model|" ++ out
+
+def main : IO Unit := lineLoop stepTied
 
 end VaxisModel.Driver.C09
